@@ -39,6 +39,14 @@ claimed={
   text='Runtime monitor of the Len/Check prefix relation: accepted schema texts (generator output in several styles, ending in every token class) x separators x directive-like trailers chosen so that the trailer cannot continue the text; Len must equal len(rtrim(S)), the prefix must pass Check with the same AST and verdicts; texts cut inside a token must make Len fail; same for JSON documents (cross-checked against encoding/json Decoder.InputOffset), enum rules and regex types.',
   note='Positive cases are generated only where the statement clearly applies (classification by an independent small lexer of the surface syntax, internal/props/c14_lex.go); comments after the last token and blank-only inputs are not generated.',
   technique='metamorphic/differential monitor (Len vs Check vs AST on prefix) over generated embeddings', ref='7 (C14)'),
+ 'C16': dict(category='exploration',
+  text='Reference-model runtime monitor: the expected AST (nodes in source order with key, key-shortcut flag, token type, literal value, schema type by the precedence enum > or > type > precision > JSON kind, rules in written order with token types/values/nested items and manual-vs-generated source, note text, no inherited allOf properties) is computed from the generator abstract schema and compared entry by entry with GetAST() for schemas rendered in canonical and random meaning-preserving spellings.',
+  note='The reference builder was calibrated against the pinned behaviour for the value spellings the statement leaves open (listed in the evidence assumptions); it agrees with the pinned tree on 1.5e5 distinct schemas.',
+  technique='reference-model monitor (expected AST from the abstract schema)', ref='7 (C16)'),
+ 'C17': dict(category='exploration',
+  text='Three monitors: (render) exhaustive over all file contents <=6 (quick) / <=7 (thorough) bytes over {a,SP,TAB,LF,CR} x all positions plus random files to 2 KiB, through the public DocumentError API, against an independent line/column/caret model, never a panic; (parse positions) every truncation and random one-byte faults of generated JSON texts as document, and the plain-JSON part as schema and enum rule: Position() must be the first byte that cannot continue the text (last byte when input ends early) per an independent RFC 8259 automaton; (validation positions) union-free schemas with ONE planted violation (wrong kind, unknown key, missing key, rule violation, item count) at a random nesting position: Position() must be the start of the offending value/key, the object brace for a missing key, the bracket for item counts.',
+  note='Mixed line-end files, positions inside leading blanks and lines over 200 bytes are judged for no-panic and bounds only; nullable containers are excluded from exact validation positions (two validators alive).',
+  technique='exhaustive small-scope rendering monitor + position oracles (independent JSON automaton, document generator position map)', ref='7 (C17)'),
  'C18': dict(category='exploration',
   text='Differential runtime monitor: enum value lists of all scalar kinds with kind-colliding texts rendered as named rules in many comment layouts vs the same list inline; regex patterns (table + printable-ASCII RE2 grammar incl. escaped slashes) as /P/ types vs inline {regex: P}; verdict(named) == verdict(inline) == model oracle / Go regexp for every probe; Values()/GetAST() literal order; duplicates; Pattern(), Example() matches P, Len() == len("/P/").',
   note='Comment attachment is compared only where unambiguous; numerically equal but differently spelled enum numbers are Unspecified for the oracle (the named-vs-inline differential still applies).',
